@@ -11,6 +11,7 @@
 from __future__ import annotations
 
 import asyncio
+import errno
 import itertools
 import math
 import pickle
@@ -39,7 +40,7 @@ RULE = (
     "variant set (2 valid packets, truncation at every offset of the first, extra byte, two frames concatenated, empty payload) through "
     "one shared DatagramProtocol, compared datagram by datagram with a fresh protocol object; for the base-class serializers every "
     "proper prefix and frame+extra byte must be a parse error; (B) sequences of <= 4 (thorough 5) datagrams over {valid a, valid b, malformed, "
-    "empty} through four endpoint/client implementations in both directions; (C) JSON-string datagrams of 1000..65527 bytes (65527 = largest UDP payload over IPv6) "
+    "empty, two concatenated, and at most one transport fault (EMSGSIZE reported by the socket between two datagrams; async subjects also with everything queued before the first receive)} through four endpoint/client implementations in both directions; (C) JSON-string datagrams of 1000..65527 bytes (65527 = largest UDP payload over IPv6) "
     "received and sent through the same four implementations, alone and around a malformed datagram: never truncated, split or merged; states = distinct (configuration, sequence prefix) "
     "reached, transitions = datagrams processed; distinct_nontrivial = distinct (configuration, sequence) containing a malformed datagram"
 )
@@ -150,12 +151,19 @@ def run_protocol_job(cfg: zoo.SerCfg, tier: str, res: JobResult) -> None:
 # ---------------------------------------------------------------------------------------------------------
 # (B) endpoints
 
-EP_DGRAMS = {"a": b'{"a":1}', "b": b"[2]", "bad": b"{oops", "empty": b"", "two": b'{"a":1}[2]'}
+EP_DGRAMS = {"a": b'{"a":1}', "b": b"[2]", "bad": b"{oops", "empty": b"", "two": b'{"a":1}[2]', "fault": None}  # fault: a transport error (EMSGSIZE) reported between datagrams
 EP_PACKETS = {"a": {"a": 1}, "b": [2]}
-EP_REF = {"a": ("P", {"a": 1}), "b": ("P", [2]), "bad": ("E",), "empty": ("E",), "two": ("E",)}
+EP_REF = {"a": ("P", {"a": 1}), "b": ("P", [2]), "bad": ("E",), "empty": ("E",), "two": ("E",)}  # (a fault is not a datagram: no entry)
 
 
-def run_endpoint(subject: str, seq: tuple[str, ...], EP_DGRAMS: dict = EP_DGRAMS, EP_PACKETS: dict = EP_PACKETS) -> dict:
+def _rx_item(EP_DGRAMS: dict, k: str) -> Any:
+    if EP_DGRAMS[k] is None:
+        return OSError(errno.EMSGSIZE, "Message too long")
+    return EP_DGRAMS[k]
+
+
+
+def run_endpoint(subject: str, seq: tuple[str, ...], EP_DGRAMS: dict = EP_DGRAMS, EP_PACKETS: dict = EP_PACKETS, prefetch: bool = False) -> dict:
     world = World(Ctx(), horizon=600)
     sock = world.dgram_socket()
     proto = DatagramProtocol(JSONSerializer())
@@ -171,7 +179,7 @@ def run_endpoint(subject: str, seq: tuple[str, ...], EP_DGRAMS: dict = EP_DGRAMS
                 _base_selector.selectors = _shim_selectors(world)  # type: ignore[assignment]
                 subj = UDPNetworkClient(sock, proto, retry_interval=math.inf)
             for k in seq:
-                sock.rxd.append((EP_DGRAMS[k], ("127.0.0.1", 40000)))
+                sock.rxd.append((_rx_item(EP_DGRAMS, k), ("127.0.0.1", 40000)))
             for k in seq:
                 try:
                     got.append(("P", subj.recv_packet(timeout=0)))
@@ -202,7 +210,11 @@ def run_endpoint(subject: str, seq: tuple[str, ...], EP_DGRAMS: dict = EP_DGRAMS
             subj = AsyncUDPNetworkClient(sock, proto, backend)
             await subj.wait_connected()
         for k in seq:
-            sock.rxd.append((EP_DGRAMS[k], ("127.0.0.1", 40000)))
+            sock.rxd.append((_rx_item(EP_DGRAMS, k), ("127.0.0.1", 40000)))
+        if prefetch:
+            # everything (datagrams and faults) reaches the endpoint's queue before the application asks for the first packet
+            for _ in range(2 * len(seq) + 2):
+                await asyncio.sleep(0)
         for k in seq:
             try:
                 got.append(("P", await subj.recv_packet()))
@@ -231,26 +243,36 @@ def run_endpoint_job(subject: str, tier: str, res: JobResult) -> None:
     states = set()
     for L in range(1, maxlen + 1):
         for seq in itertools.product(EP_DGRAMS, repeat=L):
-            obs = run_endpoint(subject, seq)
-            res.evaluations += 1
-            res.transitions += L
-            for i in range(1, L + 1):
-                states.add(seq[:i])
-            exp = [EP_REF[k] for k in seq]
-            exp_sent = [EP_DGRAMS[k] for k in seq if k in EP_PACKETS]
-            if any(k not in EP_PACKETS for k in seq):
-                res.nontrivial.add(digest((subject, seq)))
-            bad = None
-            if obs["got"] != exp:
-                bad = "received-results-differ-from-per-datagram-reference"
-            elif obs["sent"] != exp_sent:
-                bad = "sent-datagrams-differ"
-            res.outcome(f"{subject}-ok" if bad is None else "VIOLATION:" + bad)
-            if bad and not any(v.key == f"endpoint/{subject}/{bad}" for v in res.violations):
-                res.violations.append(Violation(f"endpoint/{subject}/{bad}", f"{subject} datagrams {seq}: results {obs['got']} expected {exp}; sent {obs['sent']} expected {exp_sent}",
-                                                {"part": "B", "subject": subject, "seq": list(seq)}))
+            nfault = seq.count("fault")
+            if nfault > 1 or (tier == "quick" and nfault and L == maxlen):
+                continue  # at most one transport fault per sequence (quick: not in the longest sequences)
+            for prefetch in ((False, True) if (nfault and subject.startswith("async")) else (False,)):
+                obs = run_endpoint(subject, seq, prefetch=prefetch)
+                res.evaluations += 1
+                res.transitions += L
+                for i in range(1, L + 1):
+                    states.add(seq[:i])
+                exp = [EP_REF[k] for k in seq if k != "fault"]
+                exp_sent = [EP_DGRAMS[k] for k in seq if k in EP_PACKETS]
+                if any(k not in EP_PACKETS for k in seq):
+                    res.nontrivial.add(digest((subject, seq, prefetch)))
+                got = obs["got"]
+                if nfault:
+                    # a transport fault is reported as OSError by some receive call (at most once per fault, plus the time-outs of the calls
+                    # it displaced); the DATAGRAMS still yield exactly their results, in order
+                    oserrors = [g for g in got if g[0] == "X" and g[1] in ("OSError", "ConnectionAbortedError", "TimeoutError")]
+                    got = [g for g in got if g not in oserrors]
+                bad = None
+                if got != exp:
+                    bad = "received-results-differ-from-per-datagram-reference" if not nfault else "datagram-lost-or-altered-around-a-transport-fault"
+                elif obs["sent"] != exp_sent:
+                    bad = "sent-datagrams-differ"
+                res.outcome(f"{subject}-ok" if bad is None else "VIOLATION:" + bad)
+                if bad and not any(v.key == f"endpoint/{subject}/{bad}" for v in res.violations):
+                    res.violations.append(Violation(f"endpoint/{subject}/{bad}", f"{subject} datagrams {seq} (prefetch={prefetch}): results {obs['got']} expected {exp}; sent {obs['sent']} expected {exp_sent}",
+                                                    {"part": "B", "subject": subject, "seq": list(seq), "prefetch": prefetch}))
     res.states += len(states)
-    res.samples.append({"part": "endpoint", "subject": subject, "alphabet": {k: v.decode() for k, v in EP_DGRAMS.items()}, "max_sequence": maxlen})
+    res.samples.append({"part": "endpoint", "subject": subject, "alphabet": {k: (v.decode() if v is not None else "transport fault EMSGSIZE") for k, v in EP_DGRAMS.items()}, "max_sequence": maxlen})
 
 
 # (C) size band: datagrams up to the largest UDP payload (65527 bytes over IPv6; 65507 over IPv4) are neither truncated nor split
@@ -309,10 +331,11 @@ def run_job(job: dict) -> JobResult:
 def replay(doc: dict) -> tuple[bool, str]:
     rp = doc["replay"]
     if rp["part"] == "B":
-        obs = run_endpoint(rp["subject"], tuple(rp["seq"]))
-        exp = [EP_REF[k] for k in rp["seq"]]
+        obs = run_endpoint(rp["subject"], tuple(rp["seq"]), prefetch=rp.get("prefetch", False))
+        exp = [EP_REF[k] for k in rp["seq"] if k != "fault"]
         exp_sent = [EP_DGRAMS[k] for k in rp["seq"] if k in EP_PACKETS]
-        return obs["got"] != exp or obs["sent"] != exp_sent, f"subject={rp['subject']} seq={rp['seq']}\nobserved={obs}\nexpected results={exp} sent={exp_sent}"
+        got = [g for g in obs["got"] if not ("fault" in rp["seq"] and g[0] == "X" and g[1] in ("OSError", "ConnectionAbortedError", "TimeoutError"))]
+        return got != exp or obs["sent"] != exp_sent, f"subject={rp['subject']} seq={rp['seq']}\nobserved={obs}\nexpected results={exp} sent={exp_sent}"
     if rp["part"] == "C":
         dgrams, packets, ref = size_tables()
         obs = run_endpoint(rp["subject"], tuple(rp["seq"]), dgrams, packets)
